@@ -15,6 +15,7 @@ import ModVerif.Proofs.EditRefineInvRun
 import ModVerif.Proofs.EditRefineNoPanic
 import ModVerif.Proofs.EditRefineInvBulk
 import ModVerif.Proofs.EditRefineInvCheck
+import ModVerif.Proofs.EditRefineInvWork
 namespace ModVerif.Props.C15
 open ModVerif ModVerif.EditSpec ModVerif.Modfile
 
@@ -187,6 +188,32 @@ theorem setRequire_preserves_inv (e e' : Edit.EFile) (want : List Edit.Want) (pe
     (hlive : ∀ r ∈ e.f.require, Edit.liveRq r = true) (hset : Edit.NoNestedIndirectMarker e)
     (h : Edit.setRequire e want perm = .ok e') : Edit.Inv e' :=
   Edit.setRequire_inv e e' want perm hperm hg hi hlive hset h
+
+/-- **typed_eq_tree, go.work.**  The same invariant for workspace files (`Edit.InvW`: go, toolchain, godebug, use,
+    replace): it holds for the empty go.work (`Edit.InvW_empty`), is preserved by every go.work operation with valid
+    arguments (SetUse: `setUse_preserves_inv`), hence holds after every such session and the final Cleanup. -/
+theorem typed_eq_tree_work (e e' : Edit.EWork) (ops : List Edit.Op) (res : List Bool) (hi : Edit.InvW e)
+    (hv : ∀ op ∈ ops, Edit.ValidArgsW op) (h : Edit.runOps Edit.applyWork e ops [] 0 = .done e' res) :
+    Edit.InvW (Edit.workCleanup e') :=
+  Edit.typed_eq_tree_work e e' ops res hi hv h
+
+/-- SetUse preserves the invariant (every typed use live: a Cleanup has just run), for every map-iteration order -/
+theorem setUse_preserves_inv (e e' : Edit.EWork) (dirs : List (Bytes × Bytes))
+    (perm : List (Bytes × Bytes) → List (Bytes × Bytes)) (hperm : ∀ l, (perm l).Perm l) (hg : Edit.GoodUse dirs)
+    (hi : Edit.InvW e) (hlive : ∀ u ∈ e.f.use, Edit.liveU u = true) (h : Edit.setUse e dirs perm = .ok e') : Edit.InvW e' :=
+  Edit.setUse_inv e e' dirs perm hperm hg hi hlive h
+
+theorem InvW_empty : Edit.InvW (Edit.loadWork {}) := Edit.InvW_empty
+
+/-- non-vacuity (go.work): a session from the empty workspace file with valid arguments runs to completion, and SetUse
+    then succeeds on the cleaned state (all uses live) -/
+example :
+    (match Edit.runOps Edit.applyWork (Edit.loadWork {})
+        [.addGo (B "1.21"), .addUse (B "./a") [], .addNewUse (B "./b") [], .addUse (B "./a") (B "m"), .dropUse (B "./b"),
+         .addReplace (B "example.com/a") [] (B "../a") [], .addGodebug (B "x") (B "1"), .sortBlocks, .cleanup] [] 0 with
+     | .done e res => res.all id && e.f.use.all Edit.liveU &&
+         (Edit.setUse e [(B "./c", []), (B "./a", [])] (Edit.permOf true)).isOk
+     | _ => false) = true := by decide +kernel
 
 /-- one operation preserves the invariant (the per-operation lemma (ii) of lean/PENDING.md) -/
 theorem op_preserves_inv (e e' : Edit.EFile) (op : Edit.Op) (hv : Edit.ValidArgsT op) (hi : Edit.Inv e)
